@@ -453,6 +453,10 @@ pub fn wait_quiescent(db: &DB, timeout: Duration) -> Option<StateDump> {
         if t0.elapsed() > timeout {
             return None;
         }
+        // a dead background thread never finishes what is scheduled: no point in waiting
+        if stable == 0 && t0.elapsed() > Duration::from_millis(300) && peek_panics().iter().any(|p| p.thread == "bg") {
+            return None;
+        }
         std::thread::sleep(Duration::from_millis(if stable > 0 { 1 } else { 2 }));
     }
 }
